@@ -49,6 +49,10 @@ func (m *minimiser) try(c *Case) bool {
 
 func minimise(c *Case, v *Violation) (*Case, *Violation, bool) {
 	m := &minimiser{want: v, deadline: time.Now().Add(20 * time.Second), best: c.clone(), bestV: v}
+	if v.Class == "hang" {
+		// each attempt costs a whole step budget
+		m.deadline = time.Now().Add(8 * time.Second)
+	}
 	// The starting point must reproduce in-process, otherwise keep the original.
 	if m.fails(m.best) == nil {
 		return c, v, false
